@@ -294,6 +294,12 @@ impl Server {
         );
     }
 
+    /// Verification hook: read-only view of this server's statistics recorder
+    #[cfg(feature = "verif")]
+    pub fn verif_stats(&self) -> &dyn ServerStats {
+        self.stats_recorder.as_ref()
+    }
+
     pub fn thread_name(&self) -> &str {
         &self.thread_name
     }
